@@ -992,7 +992,8 @@ Proof.
     + intros H. inversion H; subst. simpl. split; [reflexivity|]. intros Hn. constructor; [|exact Hn].
       intros Hi. apply mem_del_In in Hi. congruence.
   - destruct (assoc_N e (m_exp m)); intros H; inversion H; subst; simpl; split; auto.
-  - destruct (forallb _ _); intros H; inversion H; subst; simpl; split; auto.
+  - intros H; discriminate.
+  - intros H; discriminate.
 Qed.
 
 Lemma mon_list_del out : forall m m',
@@ -1004,8 +1005,9 @@ Proof.
   - destruct (mon_obs m o) as [m1 v1] eqn:E1. destruct (mon_list m1 r) as [m2 v2] eqn:E2.
     inversion H; subst. apply app_eq_nil in H2. destruct H2; subst.
     destruct (mon_obs_del _ _ _ E1) as [Ha Hb]. destruct (IH _ _ E2) as [Hc Hd].
-    split; [|auto]. rewrite Hc, Ha. change (deliv_obs (o :: r)) with (deliv_obs [o] ++ deliv_obs r).
-    rewrite rev_app_distr, app_assoc. reflexivity.
+    split; [|auto]. rewrite Hc, Ha.
+    assert (deliv_obs (o :: r) = deliv_obs [o] ++ deliv_obs r) as Hs by (unfold deliv_obs; simpl; rewrite app_nil_r; reflexivity).
+    rewrite Hs, rev_app_distr, app_assoc. reflexivity.
 Qed.
 
 Lemma judge_del tr : forall m,
